@@ -1,5 +1,6 @@
 import MJ.Model.Kernels
 import MJ.Model.Stk
+import MJ.Model.Nesting
 /-! Line driver for C01: `k <kernel> <args…>` case lines (as `harness/src/bin/c01.rs` names them) →
     `case<TAB>model result`, in the harness' canonical form (`ok:…`, `err`, `panic`); `-` for cases
     the model does not cover. -/
@@ -50,8 +51,73 @@ def fmtModel (style : String) (w : Int) : String :=
     -- %g of 1.5: "2" for precision 0 and 1, "1.5" above; up to three extra digits are requested
     showRes (fun (p : Nat) => if p ≤ 4 then "1" else "3") (fmtPrecisionK n 3)
 
+/-! ### parse derivations: `x` | `c<kind>(P,Rep,…)` | `g(Rep,…)`; `Rep` = `[n*]P` -/
+namespace NestDrive
+open MJ.Nesting
+
+/-- recursive-descent parser on a character list; returns the derivation and the rest -/
+partial def parseP : List Char → Option (P × List Char)
+  | 'x' :: rest => some (.leaf, rest)
+  | 'c' :: _k :: '(' :: rest =>
+    match parseP rest with
+    | some (l, rest') =>
+      match parseReps rest' [] with
+      | some (its, rest'') => some (.chain l its, rest'')
+      | none => none
+    | none => none
+  | 'g' :: '(' :: ')' :: rest => some (.group [], rest)
+  | 'g' :: '(' :: rest =>
+    match parseRep rest with
+    | some (first, rest') =>
+      match parseReps rest' first with
+      | some (items, rest'') => some (.group items, rest'')
+      | none => none
+    | none => none
+  | _ => none
+where
+  parseNat (cs : List Char) (acc : Nat) : Nat × List Char :=
+    match cs with
+    | c :: rest => if c.isDigit then parseNat rest (acc * 10 + (c.toNat - 48)) else (acc, cs)
+    | [] => (acc, [])
+  parseRep (cs : List Char) : Option (List P × List Char) :=
+    match cs with
+    | c :: _ =>
+      if c.isDigit then
+        let (n, rest) := parseNat cs 0
+        match rest with
+        | '*' :: rest' =>
+          match parseP rest' with
+          | some (p, rest'') => some (List.replicate n p, rest'')
+          | none => none
+        | _ => none
+      else
+        match parseP cs with
+        | some (p, rest) => some ([p], rest)
+        | none => none
+    | [] => none
+  parseReps (cs : List Char) (acc : List P) : Option (List P × List Char) :=
+    match cs with
+    | ')' :: rest => some (acc, rest)
+    | ',' :: rest =>
+      match parseRep rest with
+      | some (ps, rest') => parseReps rest' (acc ++ ps)
+      | none => none
+    | _ => none
+
+def handle (enc : String) : String :=
+  match parseP enc.toList with
+  | some (p, []) =>
+    match parse .real p with
+    | .ok _ => "ok"
+    | .error .chain => "err-chain"
+    | .error .recursion => "err-rec"
+  | _ => "bad-case"
+
+end NestDrive
+
 def handle (case : String) : String :=
   match case.trimAscii.toString.splitOn " " with
+  | ["k", "nest", enc] => NestDrive.handle enc
   | ["k", "range", a, b, c] =>
     match a.toInt?, optInt b, optInt c with
     | some a, some b, some c => modelRange a b c
